@@ -170,7 +170,14 @@ def run_case(args):
                             rep = replay_model(cid, case, guess, tier, seed)
                             labels = [f[0] for f in (rep.get('fails') or [])]
                             if cl.label in labels:
-                                rec.update(verdict='violation', model=guess, replay=rep,
+                                # a float failure on a random point can be ill-conditioning rather than a defect: the same
+                                # inputs are pushed through the symbolic layer as exact rationals; only a failure that is
+                                # not refuted in exact arithmetic is reported
+                                ex = _exact_confirm(case, rep, cl.label)
+                                if ex in ('holds', 'singular'):
+                                    rec['float_artefacts'] = rec.get('float_artefacts', 0) + 1
+                                    continue
+                                rec.update(verdict='violation', model=guess, replay=rep, exact_rerun=ex,
                                            why='solver unknown; counterexample found by concrete probing and replayed')
                                 break
                 elif r == 'unsat':
@@ -286,7 +293,10 @@ def run_case(args):
             rep = replay_model(cid, case, guess, tier, seed)
             if rep.get('reproduced') and rep.get('fails'):
                 lab = rep['fails'][0][0]
-                recs.append(dict(case=case.name, label=lab, kind='probe', verdict='violation', model=guess, replay=rep,
+                ex = _exact_confirm(case, rep, lab)
+                if ex in ('holds', 'singular'):
+                    continue        # exact arithmetic on the same inputs satisfies the claim (or divides by zero): float noise, not a defect
+                recs.append(dict(case=case.name, label=lab, kind='probe', verdict='violation', model=guess, replay=rep, exact_rerun=ex,
                                  why='symbolic run inconclusive; violation found by concrete probing of the case and replayed'))
                 break
     # vacuity at case level: the explored paths partition the inputs, so an unsat on a path whose own
@@ -319,6 +329,15 @@ def run_case(args):
     smt.shutdown()
     return dict(case=case.name, records=recs, stats=stats, paths=paths, outcomes=outcomes,
                 funcs=sorted(_FUNCS), stubs=sorted(stubs.USED), wall=time.time() - t_case)
+
+
+def _exact_confirm(case, rep, label):
+    """'holds' / 'fails' / 'unknown' for the claim `label` on the inputs of a float replay, in exact rational arithmetic"""
+    from symx import replay
+    try:
+        return replay.run_exact_forked(case, rep.get('inputs'), label)
+    except BaseException:      # noqa
+        return 'unknown'
 
 
 def replay_model(cid, case, model, tier, seed, save=None):
